@@ -803,10 +803,10 @@ fn catalog(thorough: bool) -> Vec<(&'static str, Value)> {
         ("array-with-nan-inside", Value::array(vec![Value::Float(1.0), Value::array(vec![Value::Float(f64::NAN)])])),
         ("map-with-inf-inside", fmap(vec![("ok".into(), Value::Int(1)), ("bad".into(), Value::Float(f64::INFINITY))])),
         ("array-nested-20-levels", deep_array(20)),
+        // each array level is two JSON levels ({"Array":[..]}): 70 levels exceed serde_json's recursion limit of 128
+        ("array-nested-70-levels", deep_array(70)),
     ];
-    if thorough {
-        c.push(("array-nested-70-levels", deep_array(70)));
-    }
+    let _ = thorough;
     c
 }
 
@@ -1227,7 +1227,7 @@ fn main() {
     install_quiet_panic_hook();
     watchdog("C20", args.pick(900, 7200));
     let mut rep = Report::new("C20", "exploration", &args);
-    rep.rule = "three lanes. systematic: every value of a fixed catalogue (int extremes, NaN, +-inf, -0.0, subnormal, 1e23, unicode / control / quote strings, ns timestamps, u64::MAX durations, empty / mixed / nested arrays and maps, ordered and unicode map keys, non-finite floats inside containers, 20-level nesting; thorough adds 70-level nesting) placed in one event at every event-holding component (window events, window partitions, SASE stack / captured / kleene_events / partitioned runs + partition key, join buffers, outer Checkpoint window_states / pattern_states, engine variables) x {ms-aligned, sub-ms} event timestamp x {EngineCheckpoint, Checkpoint.context_states}. random-synthesised: 1-8 random events (1-6 fields, random nested values depth<=4, random unicode type and field names, timestamps before 1970 / ns precision / far future) spread over 1-4 random components, a quarter of the cases with non-finite floats. harvested: proggen programs (windows, sequences, joins, merges, distinct/limit) fed 8-37 events carrying an extra random field, half of the runs with sub-ms timestamps, Engine::create_checkpoint() at random cuts (1/6 per event and at the end). Non-trivial: checkpoint holding >=1 event with >=3 fields; distinct by canonical tree.".into();
+    rep.rule = "three lanes. systematic: every value of a fixed catalogue (int extremes, NaN, +-inf, -0.0, subnormal, 1e23, unicode / control / quote strings, ns timestamps, u64::MAX durations, empty / mixed / nested arrays and maps, ordered and unicode map keys, non-finite floats inside containers, 20- and 70-level nesting) placed in one event at every event-holding component (window events, window partitions, SASE stack / captured / kleene_events / partitioned runs + partition key, join buffers, outer Checkpoint window_states / pattern_states, engine variables) x {ms-aligned, sub-ms} event timestamp x {EngineCheckpoint, Checkpoint.context_states}. random-synthesised: 1-8 random events (1-6 fields, random nested values depth<=4, random unicode type and field names, timestamps before 1970 / ns precision / far future) spread over 1-4 random components, a quarter of the cases with non-finite floats. harvested: proggen programs (windows, sequences, joins, merges, distinct/limit) fed 8-37 events carrying an extra random field, half of the runs with sub-ms timestamps, Engine::create_checkpoint() at random cuts (1/6 per event and at the end). Non-trivial: checkpoint holding >=1 event with >=3 fields; distinct by canonical tree.".into();
     rep.assume("only CheckpointFormat::Json exists in this build (feature binary-codec off), so the codec lane is JSON + auto-detection (plain and with leading whitespace)");
     rep.assume("float equality is the code base's own (varpulis_core::Value: NaN==NaN, -0.0==0.0); nested map values are compared with entry order (they are ordered containers on both sides), top-level event field order is not judged (SerializableEvent.fields is a HashMap by design) but counted");
     rep.assume("restored events are paired with their originals through an integer `uid` field that the harness puts on every original event; harvested checkpoints pair only events of the input types A/B that still carry the harness marker field (derived events have no original)");
